@@ -279,7 +279,13 @@ class C09(Prop):
 
     def translate(self, ctx: Ctx):
         from harness import tr_recvprog as T
-        progs = T.build(core.REPO)
+        try:
+            progs = T.build(core.REPO)
+        except T.Untranslatable as e:
+            # do not leave a file from an earlier run (possibly of another tree) behind: the remaining links are then
+            # evaluated against the reference programs; the failed translation is reported by the driver as a broken link
+            core.write_if_changed(GEN_FILE, T.render_reference(str(e)))
+            raise
         core.write_if_changed(GEN_FILE, T.render(progs))
         self._progs = T.signature(progs)
         return [GEN_FILE]
